@@ -128,6 +128,17 @@ def resolveArgument (P : Params) (s : Stack) (arg0 : Str) : Res Val :=
 def upperChar (c : Char) : Char := if 'a' ≤ c && c ≤ 'z' then Char.ofNat (c.toNat - 32) else c
 def lowerChar (c : Char) : Char := if 'A' ≤ c && c ≤ 'Z' then Char.ofNat (c.toNat + 32) else c
 
+/-- `strings.Fields` -/
+def fieldsAux : Str → Str → List Str
+  | [], cur => if cur == [] then [] else [cur.reverse]
+  | c :: r, cur => if isSpace c then (if cur == [] then fieldsAux r [] else cur.reverse :: fieldsAux r []) else fieldsAux r (c :: cur)
+def fields (s : Str) : List Str := fieldsAux s []
+
+/-- `titleFunc` on one word (ASCII case mapping, as for upper/lower) -/
+def titleWord : Str → Str
+  | [] => []
+  | c :: r => upperChar c :: r.map lowerChar
+
 def arityErr (want got : Nat) : Res Val :=
   .err "func" ("function expects ".toList ++ natToStr want ++ " arguments, got ".toList ++ natToStr got)
 
@@ -136,6 +147,7 @@ def callBuiltin (name : Str) (args : List Val) : Option (Res Val) :=
   let one (f : Val → Val) : Option (Res Val) := some (match args with | [a] => .ok (f a) | _ => arityErr 1 args.length)
   if name == "upper".toList then one (fun v => match v with | .str s => .str (s.map upperChar) | v => v)
   else if name == "lower".toList then one (fun v => match v with | .str s => .str (s.map lowerChar) | v => v)
+  else if name == "title".toList then one (fun v => match v with | .str s => .str (joinWith [' '] ((fields s).map titleWord)) | v => v)
   else if name == "trim".toList then one (fun v => match v with | .str s => .str (trimSpace s) | v => v)
   else if name == "len".toList then one (fun v => match v with | .str s => .int .int s.length | .list _ xs => .int .int xs.length | .map _ kvs => .int .int kvs.length | _ => .int .int 0)
   else if name == "string".toList then one (fun v => .str v.sprint)
